@@ -225,12 +225,44 @@ def edge_forms(fn):
                 if g0 is not None:
                     allfalse = all(not bool(a[1]) for a in consts)
                     alltrue = all(bool(a[1]) for a in consts)
+                    # `let ok = a && b;` lowers to `if a { ok = b } else { ok = false }`: when ok is true the assignment `ok = b`
+                    # was executed, so the conditions that block is control dependent on hold as well
+                    extra = []
+                    if allfalse and "l" in t["discr"]:
+                        from terms import control_deps as _cd
+                        cdm = _cd(fn)
+                        L = t["discr"]["l"]
+                        for _hop in range(4):
+                            ds = [d for d in fn.defs().get(L, []) if d[2] == "assign"]
+                            nonconst = [d for d in ds if not (d[3]["rv"]["k"] == "use" and d[3]["rv"]["ops"][0].get("k") == "const")]
+                            if len(nonconst) != 1:
+                                break
+                            dbb = nonconst[0][0]
+                            for (ab, asucc) in cdm.get(dbb, set()):
+                                at = fn.term(ab)
+                                if at["k"] != "switch":
+                                    continue
+                                af = compare_form(origin(fn, at["discr"]))
+                                if af is None:
+                                    continue
+                                vals2 = [v for v, tb in at["targets"] if tb == asucc]
+                                if vals2 == [0]:
+                                    extra.append(af.negate())
+                                elif vals2 == [1] or (not vals2 and at["otherwise"] == asucc and [v for v, _ in at["targets"]] == [0]):
+                                    extra.append(af)
+                            rv = nonconst[0][3]["rv"]
+                            if rv["k"] == "use" and "l" in rv["ops"][0] and not rv["ops"][0].get("p"):
+                                L = rv["ops"][0]["l"]
+                            else:
+                                break
                     for s in fn.succ(b):
                         vals = [v for v, tb in t["targets"] if tb == s]
                         is_true = vals == [1] or (not vals and t["otherwise"] == s and [v for v, _ in t["targets"]] == [0])
                         is_false = vals == [0]
                         if is_true and allfalse:
                             out.append((b, s, g0, t["loc"]["l"]))
+                            for ef in extra:
+                                out.append((b, s, ef, t["loc"]["l"]))
                         if is_false and alltrue:
                             out.append((b, s, g0.negate(), t["loc"]["l"]))
             continue
